@@ -41,6 +41,7 @@ def wire_legality(log, ep, role, lenient_unknown=False):
     streams = {}
     tx_seen = 0
     setups = 0
+    lease_negotiated = [False]
 
     def bad(rule, st, f, ctx, detail=None):
         who = '%s/%s' % (st.role, st.kind) if st is not None else role
@@ -73,6 +74,8 @@ def wire_legality(log, ep, role, lenient_unknown=False):
             continue
         f = ev[2]
         if k == 'rx':
+            if not f.bad and f.sid == 0 and f.type == R.SETUP and (f.flags & R.F_LEASE):
+                lease_negotiated[0] = True  # the peer (client) asked for leases in its SETUP
             if f.bad or f.sid <= 0:
                 continue
             st = streams.get(f.sid)
@@ -100,11 +103,15 @@ def wire_legality(log, ep, role, lenient_unknown=False):
                 setups += 1
                 if setups > 1:
                     bad('setup-once', None, f, 'second-setup')
+                if f.flags & R.F_LEASE:
+                    lease_negotiated[0] = True
         elif f.type == R.SETUP:
             bad('setup-first', None, f, 'server-sent-setup')
         if f.type in (R.SETUP, R.KEEPALIVE, R.LEASE, R.METADATA_PUSH, R.RESUME, R.RESUME_OK):
             if f.sid != 0:
                 bad('connection-frames-stream-0', None, f, 'sid=%d' % f.sid)
+            if f.type == R.LEASE and not lease_negotiated[0]:
+                bad('frame-type-for-role', None, f, 'lease-not-negotiated', '%s emitted LEASE on a connection whose SETUP did not carry the lease flag' % ep)
             continue
         if f.sid == 0:
             if f.type != R.ERROR:
